@@ -1,8 +1,44 @@
-(* C06 — see DESIGN.md section 7/C06.  Only property theorems here. *)
-From Flyt Require Import Base Script FlowTable Engine BatchConc EngineCorr EngineFacts BatchConcFacts.
+(* C06 — Batch results correspond positionally to items; post sees all, once.
+   Only property theorems here; each closed by `exact` of a lemma from Proofs/.
+   The concurrent path is the transition system of Model/BatchConc.v; every theorem below
+   quantifies over ALL schedules (lists of thread choices, any length, disabled choices
+   skipped), all item counts, worker counts, queue capacities, budgets and all user code. *)
+From Flyt Require Import Base Script FlowTable Engine BatchConc EngineCorr EngineFacts BatchConcFacts
+     ItemMon BatchConcInv BatchConcItems.
 
-(* the concurrent executor only appends callback events (it never rewrites the log and the
-   context is cancelled afterwards exactly when it was before or an event cancelled it) *)
+(* Whatever the schedule: once the submitter is past pool.Wait() — only then is post called —
+   all n slots are written (post gets a result list of the same length as the item list, with
+   every item settled), and slot i is a value the callback events made on behalf of item i
+   ALONE determine (`settled`, Spec/ItemMon.v): the outcome of a complete processing of item
+   i, or an error slot when item i was never executed or was cut short by the context.  No
+   slot depends on any other item, so result i is the outcome of item i and of no other, for
+   every completion order. *)
+Theorem C06_slots_positional :
+  forall (o : oracle) c nd (items : list val) stopmode nworkers qcap,
+    has_exec c = true ->
+    forall s0 sched,
+      let s := brun o c nd items stopmode qcap (binit items nworkers s0) sched in
+      (mpc s = MClose \/ mpc s = MRet) ->
+      length (slots s) = length items /\
+      forall i, i < length items ->
+        exists v, slot_at s i = Some v /\ settled c nd (item_at items i) (il s i) v.
+Proof. exact all_settled_lemma. Qed.
+Print Assumptions C06_slots_positional.
+
+(* pool.Wait() is a barrier: in any reachable state in which the submitter is past Wait, no
+   item is queued or running any more *)
+Theorem C06_post_after_all_settled :
+  forall (o : oracle) c nd (items : list val) stopmode nworkers qcap s0 sched,
+    let s := brun o c nd items stopmode qcap (binit items nworkers s0) sched in
+    (mpc s = MClose \/ mpc s = MRet) ->
+    deq s = length items /\ count_run (ws s) = 0 /\ forall i, i < length items -> slot_at s i <> None.
+Proof.
+  intros. apply (wait_is_barrier items nworkers); auto.
+  apply brun_inv. apply binit_inv.
+Qed.
+Print Assumptions C06_post_after_all_settled.
+
+(* sequential and concurrent executors only append to the callback log *)
 Theorem C06_executor_appends :
   forall o rel c k st n s its s' rs, gated_exec o rel c k st n s its = (s', rs) -> ext s s'.
 Proof. exact gated_exec_ext. Qed.
